@@ -58,7 +58,11 @@ def flip_ops(dirs, target_dir, fname, off, mask, cfg):
     ops = []
     for src, dst in dirs:
         ops.append("cpdir %s %s" % (src, dst))
-    ops += ["corrupt %s %s %d %d" % (target_dir, fname, off, mask), "open w " + cfg, "dump", "fold", "close"]
+    if mask == "T":
+        # truncation to `off` bytes (positions handed out by a hint file may then lie beyond the end of the file)
+        ops += ["trunc %s %s %d" % (target_dir, fname, off), "open w " + cfg, "dump", "fold", "close"]
+    else:
+        ops += ["corrupt %s %s %d %d" % (target_dir, fname, off, mask), "open w " + cfg, "dump", "fold", "close"]
     return ops
 
 
@@ -111,6 +115,12 @@ def check_db(res, ctx, rng, variant, exhaustive_limit):
                 else:
                     res.count("files_exhaustive")
             targets += [(wd, f, o, m) for o, m in positions]
+            if variant == "merged" and f.endswith(".data"):
+                # every truncation length of the data files (the rewritten ones are indexed through the hint file
+                # without being scanned, so their positions survive the cut)
+                cuts = list(range(sz)) if sz <= 400 else sorted(set(rng.sample(range(sz), 120)) | {0, 1, sz - 1})
+                targets += [(wd, f, n, "T") for n in cuts]
+                res.count("truncations_of_merged_files", len(cuts))
         # run in chunks inside one process; a dead process restarts after the offending flip
         i = 0
         per = 6 + (1 if len(dirs) > 1 else 0)
@@ -134,16 +144,16 @@ def check_db(res, ctx, rng, variant, exhaustive_limit):
                 res.evaluations += 1
                 outcome = seg_out[-4] if len(seg_out) >= 4 else "?"
                 res.count("open_outcome:" + outcome.split("(")[0])
-                res.distinct.add("%s:%s:%d:%d" % (variant, t[1], t[2], t[3]) if outcome != "ok" or True else "")
+                res.distinct.add("%s:%s:%d:%s" % (variant, t[1], t[2], t[3]))
                 bad = None
                 for op, out in zip(seg_ops, seg_out):
                     if out.startswith(("panic:", "died", "dead")):
-                        bad = "%s -> %s after flipping bit mask %d of byte %d of %s" % (op, out, t[3], t[2], t[1])
+                        bad = "%s -> %s after %s of %s" % (op, out, ("truncation to %d bytes" % t[2]) if t[3] == "T" else "flipping bit mask %d of byte %d" % (t[3], t[2]), t[1])
                         break
                     if op == "dump":
                         msg = served_ok(out, hist)
                         if msg:
-                            bad = msg + " after flipping bit mask %d of byte %d of %s" % (t[3], t[2], t[1])
+                            bad = msg + " after %s of %s" % (("truncation to %d bytes" % t[2]) if t[3] == "T" else "flipping bit mask %d of byte %d" % (t[3], t[2]), t[1])
                             break
                 if bad:
                     res.violation(bad, {"ops": setup + seg_ops, "flip": t})
@@ -155,7 +165,7 @@ def check_db(res, ctx, rng, variant, exhaustive_limit):
                     seg_m = mo[a:z]
                     for op, x, y in zip(seg_ops, seg_out, seg_m):
                         if y != "?" and x != y:
-                            res.violation("correspondence broke under corruption (%s byte %d mask %d) at `%s`: code=%s model=%s" % (
+                            res.violation("correspondence broke under corruption (%s byte %d mask %s) at `%s`: code=%s model=%s" % (
                                 t[1], t[2], t[3], op, x[:200], y[:200]),
                                 {"ops": setup + seg_ops, "code": x, "model": y, "correspondence": "corruption outcome"}, no_input=True)
                             break
@@ -246,3 +256,74 @@ def random_damage(res, ctx, rng, idx):
                         break
     finally:
         ctx.scratch.drop(base)
+
+
+def check_truncated_hinted(res, ctx, rng):
+    """A merge whose output spans several files; the rewritten files EXCEPT THE LAST are indexed through the hint file
+    without being scanned, so after truncating one of them Open succeeds and the index holds positions beyond the end
+    of the file: every Get / Fold must answer with the value or an error."""
+    from . import crashcheck
+    ops0, cfg = crashcheck.merge_workload(rng, io=0)
+    cfgs = engine.open_line("x", cfg).split(" ", 2)[2]
+    setup = ["open orig " + cfgs] + [o for o in ops0[1:ops0.index("merge") + 1]] + ["dump", "close"]
+    hist = {}
+    for op in setup:
+        f = op.split()
+        if f[0] in ("put", "bput"):
+            hist.setdefault(bytes.fromhex(f[1]), set()).add(core.fmt_val(core.val_bytes(f[2])))
+    base = ctx.scratch.fresh()
+    try:
+        outs = run_impl(setup + ["files orig-merge"], base)
+    finally:
+        ctx.scratch.drop(base)
+    line = outs[-1]
+    files = []
+    if line.startswith("files ") and line != "files absent":
+        for it in [x for x in line[6:].split(",") if x]:
+            f, sz = it.rsplit(":", 1)
+            if f.endswith(".data") and int(sz) > 0:
+                files.append((f, int(sz)))
+    files.sort()
+    if len(files) < 2:
+        res.count("truncated_hinted:single_output_file")
+        return
+    ops = list(setup)
+    spans = []
+    for f, sz in files[:-1]:
+        for n in sorted(set(rng.sample(range(sz), min(sz, 14))) | {0, sz // 3, sz - 1}):
+            seg = ["cpdir orig w", "cpdir orig-merge w-merge", "trunc w-merge %s %d" % (f, n), "open w " + cfgs, "dump", "fold", "close", "rmdir w", "rmdir w-merge"]
+            spans.append((len(ops), len(ops) + len(seg), f, n))
+            ops += seg
+    base = ctx.scratch.fresh()
+    try:
+        o = run_impl(ops, base, timeout=300)
+    finally:
+        ctx.scratch.drop(base)
+    mo = run_model(core.model_ops(ops)) if ctx.model_ok else None
+    for a, z, f, n in spans:
+        res.evaluations += 1
+        res.count("truncated_hinted_files")
+        seg_ops, seg_out = ops[a:z], o[a:z]
+        res.count("truncated_hinted_open:" + (seg_out[3] if len(seg_out) > 3 else "?").split("(")[0])
+        res.distinct.add("trunc-hinted:%s:%d" % (f, n))
+        bad = None
+        for op, out in zip(seg_ops, seg_out):
+            if out.startswith(("panic:", "died", "dead")):
+                bad = "%s -> %s after truncating the hinted file %s of a merged database to %d bytes" % (op, out[:120], f, n)
+                break
+            if op == "dump":
+                msg = served_ok(out, hist)
+                if msg:
+                    bad = msg + " after truncating the hinted file %s to %d bytes" % (f, n)
+                    break
+        if bad:
+            res.violation(bad, {"ops": setup + seg_ops})
+            if any(x.startswith(("died", "dead")) for x in seg_out):
+                break
+            continue
+        if mo is not None:
+            for op, x, y in zip(seg_ops, seg_out, mo[a:z]):
+                if y != "?" and x != y:
+                    res.violation("correspondence broke after truncating the hinted file %s to %d bytes at `%s`: code=%s model=%s" % (f, n, op, x[:200], y[:200]),
+                                  {"ops": setup + seg_ops, "code": x, "model": y, "correspondence": "corruption outcome"}, no_input=True)
+                    break
